@@ -464,7 +464,9 @@ func (s *clientSocket) emitBuffered() {
 			sent, ok := ackIDs[*event.header.ID]
 			if ok && sent {
 				mu.Unlock()
-				return
+				// Already acknowledged. Go on with the other events,
+				// and with the packets that wait to be sent.
+				continue
 			}
 			ackIDs[*event.header.ID] = true
 			mu.Unlock()
